@@ -839,3 +839,191 @@ func ruleMemoryTipFollowsPersistedTip(c *report.Ctx) {
 		}
 	}
 }
+
+// ruleRemovalKeepsSurvivorsReservations (C08): removing a wallet releases the pending-spend marks of a transaction's
+// inputs only where that transaction is itself dropped.
+func ruleRemovalKeepsSurvivorsReservations(c *report.Ctx) {
+	p := c.P
+	c.Rule("removal-keeps-survivors-reservations", "on the removal path (everything asyncRemove reaches) the wholesale release of the coins a pending transaction spends (UtxoStore.deleteUnminedInputs: one pending-input row per input, whoever owns the coin) happens only under the removable verdict of removableTxForRemoveWallet: a pending transaction shared with a surviving wallet stays, so its inputs — the survivor's coins among them — must stay marked spent-by-pending, or the survivor's next transaction double-spends its own pending payment", 1)
+	ar := fn(c, pkgWallet, "NtfnsHandler", "asyncRemove")
+	dui := fn(c, pkgTxmgr, "UtxoStore", "deleteUnminedInputs")
+	removable := fn(c, pkgTxmgr, "TxStore", "removableTxForRemoveWallet")
+	if ar == nil || dui == nil || removable == nil {
+		return
+	}
+	isRemovable := func(a an.Atom) bool {
+		if a.Op != token.ILLEGAL || !a.Truth {
+			return false
+		}
+		ex, ok := a.X.(*ssa.Extract)
+		if !ok || ex.Index != 0 {
+			return false
+		}
+		call, ok := ex.Tuple.(*ssa.Call)
+		return ok && call.Call.StaticCallee() == removable
+	}
+	reached, parent := p.ReachNil([]*ssa.Function{ar}, an.ReachOpts{Stop: func(f *ssa.Function) bool { return f == dui }})
+	n := 0
+	var fs []*ssa.Function
+	for f := range reached {
+		if p.InModule(f) && f.Blocks != nil {
+			fs = append(fs, f)
+		}
+	}
+	sortFuncs(fs)
+	for _, f := range fs {
+		for i, s := range calls(f, dui) {
+			n++
+			key := siteKey(f, "deleteUnminedInputs~removable", i+1)
+			if an.AnyAtom(p.GuardsOf(s), isRemovable) {
+				c.OK(key, "under removableTxForRemoveWallet == true", posOf(c, s))
+			} else {
+				c.Fail(key, "the removal path releases every coin a pending transaction spends without the removable verdict: when the transaction also pays a surviving wallet it is kept, but the survivor's coins it spends are no longer marked spent-by-pending and can be selected again", posOf(c, s), p.Witness(parent, f)...)
+			}
+		}
+	}
+	if n == 0 {
+		c.OK(sk(ar)+":deleteUnminedInputs", "not reached from the removal path ("+itoa(len(fs))+" functions examined): only the removed wallet's own credit rows are released, one outpoint at a time", "")
+	}
+}
+
+// ruleMinedCreditShortcutBlockOnly (C09): the "no mined credit from that transaction → not our input" shortcut of the
+// relevance filter applies to block transactions only.
+func ruleMinedCreditShortcutBlockOnly(c *report.Ctx) {
+	p := c.P
+	c.Rule("mined-credit-shortcut-block-only", "in filterTx the shortcut that skips an input when ExistCreditFromTx finds no mined credit of its previous transaction is evaluated only for block transactions (blockMeta != nil): the lookup sees mined credits only, so for a received unconfirmed transaction it would skip an input that spends a coin created by a still-pending parent — no pending-input row is written, the coin is not flagged spent-by-pending and the child does not vanish with its parent", 1)
+	ft := fn(c, pkgWallet, "NtfnsHandler", "filterTx")
+	ecf := fn(c, pkgTxmgr, "UtxoStore", "ExistCreditFromTx")
+	if ft == nil || ecf == nil {
+		return
+	}
+	bm := p.Type(pkgTxmgr, "BlockMeta")
+	ss := calls(ft, ecf)
+	if len(ss) == 0 {
+		c.OK(sk(ft)+":ExistCreditFromTx", "the shortcut is not used", p.Pos(ft.Pos()))
+		return
+	}
+	for i, s := range ss {
+		key := siteKey(ft, "ExistCreditFromTx~blockMeta!=nil", i+1)
+		ok := an.AnyAtom(p.GuardsOf(s), func(a an.Atom) bool {
+			if a.Op != token.NEQ || a.X == nil || a.Y == nil || !an.IsNilConst(a.Y) {
+				return false
+			}
+			par, isPar := a.X.(*ssa.Parameter)
+			if !isPar || bm == nil {
+				return false
+			}
+			n := an.NamedOf(par.Type())
+			return n != nil && n.Obj() == bm.Obj()
+		})
+		if ok {
+			c.OK(key, "evaluated under blockMeta != nil", posOf(c, s))
+		} else {
+			c.Fail(key, "the mined-credit shortcut is also taken for transactions that are not in a block: an unconfirmed transaction spending the output of a still-pending wallet transaction loses that input (the wallet holds only an unmined credit for it), so the pending chain is not linked", posOf(c, s), an.AtomTexts(p.GuardsOf(s))...)
+		}
+	}
+}
+
+// ruleGapOracleIsTheChain (C12): the "has this address history?" oracle handed to the keystore answers from the chain.
+func ruleGapOracleIsTheChain(c *report.Ctx) {
+	p := c.P
+	c.Rule("gap-oracle-is-the-chain", "the used-address oracle the wallet hands to KeystoreManager.NextAddresses / ImportKeystore / ImportKeystoreWithMnemonic is ChainFetcher.CheckScriptHashUsed itself, or a function whose every answer is the result of a CheckScriptHashUsed call made in that invocation: an answer remembered from an earlier call (a cache, a flag) survives the reorganisation that removed the payment, so the gap-limit refusal is bypassed and a later restore stops before the addresses issued past the limit", 3)
+	var sinks []*ssa.Function
+	for _, n := range []string{"NextAddresses", "ImportKeystore", "ImportKeystoreWithMnemonic"} {
+		if f := fn(c, pkgKeystore, "KeystoreManager", n); f != nil {
+			sinks = append(sinks, f)
+		}
+	}
+	isChainCall := func(v ssa.Value) bool {
+		if ex, ok := v.(*ssa.Extract); ok {
+			v = ex.Tuple
+		}
+		call, ok := v.(*ssa.Call)
+		if !ok {
+			return false
+		}
+		if call.Call.IsInvoke() {
+			return call.Call.Method.Name() == "CheckScriptHashUsed"
+		}
+		return call.Call.StaticCallee() != nil && call.Call.StaticCallee().Name() == "CheckScriptHashUsed"
+	}
+	var judge func(v ssa.Value, depth int) (bool, string)
+	judge = func(v ssa.Value, depth int) (bool, string) {
+		switch x := v.(type) {
+		case *ssa.MakeClosure:
+			return judge(x.Fn, depth)
+		case *ssa.Function:
+			if strings.HasSuffix(x.Name(), "CheckScriptHashUsed$bound") || x.Name() == "CheckScriptHashUsed" {
+				return true, "the chain fetcher's method"
+			}
+			if x.Blocks == nil || depth > 2 {
+				return false, "cannot see the body of " + sk(x)
+			}
+			for _, b := range x.Blocks {
+				r, ok := b.Instrs[len(b.Instrs)-1].(*ssa.Return)
+				if !ok || len(r.Results) == 0 {
+					continue
+				}
+				var walk func(v ssa.Value, d int) (bool, string)
+				walk = func(v ssa.Value, d int) (bool, string) {
+					if d > 5 {
+						return false, "undecided"
+					}
+					if isChainCall(v) {
+						return true, ""
+					}
+					switch y := v.(type) {
+					case *ssa.Const:
+						if y.Value != nil && y.Value.ExactString() == "false" {
+							return true, "" // "no history" is the refusing answer
+						}
+						return false, "the constant answer `true`"
+					case *ssa.Phi:
+						for _, e := range y.Edges {
+							if ok, why := walk(e, d+1); !ok {
+								return false, why
+							}
+						}
+						return true, ""
+					}
+					return false, p.Desc(v)
+				}
+				if ok, why := walk(r.Results[0], 0); !ok {
+					return false, sk(x) + " can answer with " + why + " without asking the chain in that call"
+				}
+			}
+			return true, "wrapper whose answers come from CheckScriptHashUsed"
+		case *ssa.Parameter:
+			return true, "forwarded parameter (judged at the caller)"
+		}
+		return false, p.Desc(v)
+	}
+	n := 0
+	for _, f := range p.ModFuncs {
+		pk := an.FuncPkg(f)
+		if pk == nil || !(pk.Path() == pkgWallet || pk.Path() == pkgAPI) {
+			continue
+		}
+		for _, sink := range sinks {
+			for i, s := range calls(f, sink) {
+				cc := an.CallOf(s)
+				for _, a := range cc.Args {
+					sig, ok := a.Type().Underlying().(*types.Signature)
+					if !ok || sig.Params().Len() != 1 || sig.Results().Len() != 2 {
+						continue
+					}
+					n++
+					key := siteKey(f, nm(sink)+"-oracle", i+1)
+					if ok, why := judge(a, 0); ok {
+						c.OK(key, why, posOf(c, s))
+					} else {
+						c.Fail(key, "the used-address oracle is not the live chain index: "+why+" — after a reorganisation that removed the first payment the gap-limit check still passes, addresses are issued past the limit and a restore with the default scan never finds them", posOf(c, s))
+					}
+				}
+			}
+		}
+	}
+	if n == 0 {
+		c.Fail("gap-oracle", "no call hands an oracle to the keystore (anchor lost)", "")
+	}
+}
